@@ -25,7 +25,7 @@ HARNESS = {
     "C13": ["harness.e2_C13"],
     "C15": ["harness.e2_C15"],
     "C16": ["harness.e2_C16"],
-    "C17": ["harness.ch_C17"],
+    "C17": ["harness.ch_C17", "harness.e2_C17"],
     "C19": ["harness.e2_C19"],
     "C20": ["harness.ch_C20"],
 }
